@@ -156,3 +156,53 @@ fn witness_successor_and_roundtrip_along_games() {
     }
     assert_eq!(bad, 0);
 }
+
+/// the generators APPEND to the buffer they are given, so a caller may keep the moves of every ply of a line on one
+/// stack: entries already on the stack must stay what they were (bit for bit), and taking a move back straight from the
+/// stack must restore the position, also after deeper plies were generated behind it
+fn walk_shared(board: &mut Bitboard, stack: &mut Vec<inkayaku_board::Move>, depth: usize, quiescent: bool, bad: &mut usize, root: &str) {
+    if depth == 0 { return; }
+    let start = stack.len();
+    let prefix: Vec<u64> = stack.iter().map(|m| m.bits).collect();
+    if quiescent { board.generate_pseudo_legal_non_quiescent_moves_with_buffer(stack); } else { board.generate_pseudo_legal_moves_with_buffer(stack); }
+    let now: Vec<u64> = stack[..start].iter().map(|m| m.bits).collect();
+    if now != prefix {
+        if *bad < 3 { println!("FAILING-INPUT: root fen={:?}: generating at {:?} into a buffer that already holds {} moves changed those moves", root, Fen::from(&*board).fen, start); }
+        *bad += 1;
+    }
+    let end = stack.len();
+    for i in start..end {
+        let before = snapshot(board);
+        let mv = stack[i];
+        board.make(mv);
+        if board.is_valid() { walk_shared(board, stack, depth - 1, quiescent && depth % 2 == 0, bad, root); }
+        let mv = stack[i];
+        board.unmake(mv);
+        let after = snapshot(board);
+        if after != before {
+            if *bad < 3 { println!("FAILING-INPUT: root fen={:?} shared move stack: taking back {} at {:?} gives {:?}", root, mv.to_uci_string(), before.0, after.0); }
+            *bad += 1;
+            return;
+        }
+    }
+    stack.truncate(start);
+}
+
+#[test]
+fn witness_roundtrip_shared_move_stack() {
+    let mut bad = 0;
+    for fen in [
+        "r3k2r/pppq1ppp/2npbn2/2b1p3/2B1P3/2NPBN2/PPPQ1PPP/R3K2R w KQkq - 4 8",
+        "rnbqkbnr/ppp1p1pp/8/3pPp2/8/8/PPPP1PPP/RNBQKBNR w KQkq f6 0 3",
+        "8/5k2/8/8/8/8/R7/4K3 w - - 130 90",
+        "4k3/P6p/8/8/8/8/p6P/4K3 b - - 99 60",
+    ] {
+        let mut board = Bitboard::from_fen_string_unchecked(fen);
+        let before = snapshot(&board);
+        let depth = if fen.starts_with("r3k2r") { 2 } else { 3 };
+        walk_shared(&mut board, &mut Vec::new(), depth, false, &mut bad, fen);
+        walk_shared(&mut board, &mut Vec::new(), 2, true, &mut bad, fen);
+        if snapshot(&board) != before { println!("FAILING-INPUT: fen={:?}: root not restored after a shared-stack walk", fen); bad += 1; }
+    }
+    assert_eq!(bad, 0);
+}
